@@ -65,6 +65,9 @@ void harness(void)
 		;
 	t = symx_u8("tmpl");
 	symx_assume(t < nt);
+#ifdef TMASK
+	symx_assume((TMASK >> t) & 1);
+#endif
 	t = symx_conc(t);
 	for (i = 0; i < 2; i++) {
 		char b[8];
